@@ -581,6 +581,9 @@ func (obj *Package) Export(name string) {
 
 // Unexport a function.
 func (obj *Package) Unexport(name string) {
+	if obj.Locked {
+		PackagePanic(NewScope(), 0, obj, "Package %s is locked and can not be modified.", obj)
+	}
 	name = strings.ToLower(name)
 	obj.mu.Lock()
 	// TBD remove from Exports list
